@@ -1608,6 +1608,7 @@ macro_rules! c13_open_state {
                     return;
                 }
             };
+            let w = core::mem::ManuallyDrop::new(w); // never dropped (Drop would run finalize)
             // writer state
             assert!(!w.writing_to_file && !w.writing_to_extra_field && !w.writing_to_central_extra_field_only);
             assert!(w.writing_raw, "the last old entry's header must not be re-patched");
@@ -1740,7 +1741,7 @@ api_harness!(c13_append_one_from_state, 10, {
     #[allow(deprecated)]
     let o_m = old.compression_method.to_u16();
     let o_made = ((old.system as u16) << 8) | old.version_made_by as u16;
-    let mut w = appended_state(&mut sink, old, &cm);
+    let mut w = core::mem::ManuallyDrop::new(appended_state(&mut sink, old, &cm)); // never dropped (Drop would run finalize again)
     let (o1, date1, time1, perm1) = sym_opts();
     let d0: u8 = kani::any();
     ok!(w.start_file("n", o1), "start_file failed");
@@ -1816,7 +1817,7 @@ api_harness!(c13_append_nothing_from_state, 10, {
     let mut sink = Sink::<N>::from_array(orig, CD0 + 51 + 24);
     sink.off = CD0;
     let old = old_entry();
-    let mut w = appended_state(&mut sink, old, &cm);
+    let mut w = core::mem::ManuallyDrop::new(appended_state(&mut sink, old, &cm)); // never dropped (Drop would run finalize again)
     ok!(w.finish(), "finish failed");
     let nb = &sink.buf;
     let mut i = 0;
@@ -1860,6 +1861,7 @@ api_harness!(c13_open_state_empty, 10, {
             return;
         }
     };
+    let w = core::mem::ManuallyDrop::new(w); // never dropped (Drop would run finalize)
     assert!(!w.writing_to_file && !w.writing_to_extra_field && !w.writing_to_central_extra_field_only && w.writing_raw);
     assert!(matches!(w.inner, GenericZipWriter::Storer(MaybeEncrypted::Unencrypted(_))));
     assert_eq!(w.files.len(), 0);
@@ -1880,7 +1882,7 @@ api_harness!(c13_append_to_empty_from_state, 10, {
     let cm: [u8; 1] = kani::any();
     let end0 = put_eocd(&mut b, 0, 0, 0, 0, 0, 0, 0, &cm);
     let mut sink = Sink::<N>::from_array(b, end0);
-    let mut w = ZipWriter {
+    let mut w = core::mem::ManuallyDrop::new(ZipWriter {
         inner: GenericZipWriter::Storer(MaybeEncrypted::Unencrypted(sink.handle())),
         files: Vec::new(),
         stats: Default::default(),
@@ -1889,7 +1891,7 @@ api_harness!(c13_append_to_empty_from_state, 10, {
         writing_to_central_extra_field_only: false,
         writing_raw: true,
         comment: cm.to_vec(),
-    };
+    });
     let add: bool = kani::any();
     if add {
         let (o1, date1, time1, perm1) = sym_opts();
